@@ -91,9 +91,18 @@ def r1_roles(idx, r):
     acc = [n for n in walk_local(g.node) if isinstance(n, ast.AugAssign) and norm(n.target) == "updatedDestVals[paramName]"]
     r.require(len(acc) == 1 and isinstance(acc[0].op, ast.Add) and norm(acc[0].value) in ("sourceBlockVal * integrationFactor", "integrationFactor * sourceBlockVal"), "state:accumulate", g,
               msg="each source value contributes value x integration factor, additively")
-    pk = [s for s in iter_stores(g.node) if s.kind == "subscript" and norm(s.node) == "updatedDestVals[paramName]" and s.value is not None]
-    okp = len(pk) == 1 and norm(pk[0].value) == "max(sourceBlockVal, updatedDestVals[paramName])" and [(norm(t), p) for t, p in path_conditions(g.node, pk[0].stmt) if "isPeak" in norm(t)] == [("paramMapper.isPeak[paramName]", True)]
-    r.require(okp, "state:peak-takes-max", g, msg="peak quantities take the largest overlapped value")
+    pk = [s for s in iter_stores(g.node) if s.kind == "subscript" and norm(s.node) == "updatedDestVals[paramName]" and s.value is not None
+          and any("isPeak" in norm(t) and p for t, p in path_conditions(g.node, s.stmt))]
+    maxes = [s for s in pk if isinstance(s.value, ast.Call) and dotted(s.value.func) == "max" and {norm(a) for a in s.value.args} == {"sourceBlockVal", "updatedDestVals[paramName]"}]
+    r.require(len(maxes) == 1 and all(s in maxes or norm(s.value) == "sourceBlockVal" for s in pk), "state:peak-takes-max", g, msg="peak quantities take the largest overlapped value")
+    # ... and the running maximum must start from the first overlapped value, not from an implicit 0.0 (wrong for negative quantities)
+    acc = next((s for s in iter_stores(g.node) if isinstance(s.node, ast.Name) and s.attr == "updatedDestVals" and s.value is not None), None)
+    zero_default = acc is not None and isinstance(acc.value, ast.Call) and (dotted(acc.value.func) or "").endswith("defaultdict") and acc.value.args and norm(acc.value.args[0]) in ("float", "int")
+    if maxes:
+        guarded = any("in updatedDestVals" in norm(t) and p for t, p in path_conditions(g.node, maxes[0].stmt))
+        r.require(not zero_default or guarded, "state:peak-starts-from-first-value", g, node=maxes[0].stmt,
+                  msg="the running maximum of a peak parameter is read from a defaultdict(float): it starts at 0.0, so a quantity that is negative everywhere maps to 0.0 "
+                      "instead of its largest overlapped value (a constant negative profile does not stay constant)")
     inner = next((n for n in walk_local(g.node) if isinstance(n, ast.For) and "zip(paramMapper.blockParamNames, sourceBlockVals)" == norm(n.iter)), None)
     if inner is None:
         raise AnalysisError("setAssemblyStateFromOverlaps: parameter loop not found")
